@@ -7,7 +7,7 @@ import copy
 from .. import core, gen, hist, model, seams
 from . import PropBase, steps_with_ids
 
-FAULTS = ("clear", "clear_typing", "shrink", "mutate_result", "mutate_input", "twin", "clock", "zone", "stack")
+FAULTS = ("clear", "clear_typing", "shrink", "mutate_result", "mutate_input", "twin", "clock", "zone", "stack", "exhaust_scan")
 
 
 class C12(PropBase):
@@ -85,7 +85,7 @@ class C12(PropBase):
         n = rng.randint(2, 25 if tier == "quick" else 60)
         builds = []
         encodes = []
-        fault_kinds = [k for k in sw if k not in ("twin", "stack")]
+        fault_kinds = [k for k in sw if k not in ("twin", "stack", "exhaust_scan")]
         while len(steps) < n:
             if fault_kinds and steps and rng.random() < 0.25:
                 k = rng.choice(fault_kinds)
@@ -153,6 +153,10 @@ class C12(PropBase):
                 else:
                     step.update(op="call", ref=None, kind=rng.choice(["marshaller", "unmarshaller"]))
                 step["x"] = v if step["kind"] == "marshaller" else self._input(rng, v, w)
+            if "exhaust_scan" in sw and step["op"] in ("build", "marshal", "unmarshal") and rng.random() < 0.15:
+                # the operation is first issued from every stack depth at which it cannot complete:
+                # what the aborted attempts leave behind must not change this or any later outcome
+                step["scan"] = True
             steps.append(step)
         return {"prop": self.ID, "seed": seed, "tier": tier, "world": world, "env": env, "steps": steps_with_ids(steps),
                 "meta": {"swarm": sw}}
